@@ -4,6 +4,7 @@ import (
 	"fmt"
 	"sort"
 	"strconv"
+	"strings"
 )
 
 // Match decides whether the implementation's reply (parsed from the wire) is the one the model
@@ -164,4 +165,59 @@ func Shape(r Reply) string {
 		return "verbatim"
 	}
 	return "other"
+}
+
+// family type of every typed command (used by MatchCmd)
+var cmdFamily = map[string]byte{}
+
+func init() {
+	for _, n := range strings.Fields("get getset getdel getex append strlen getrange substr setrange incr decr incrby decrby incrbyfloat lcs setbit getbit bitcount bitpos bitfield bitfield_ro bitop") {
+		cmdFamily[n] = 's'
+	}
+	for _, n := range strings.Fields("lpush rpush lpushx rpushx lpop rpop llen lindex lrange lset linsert lrem ltrim lpos lmove rpoplpush lmpop blpop brpop blmove brpoplpush blmpop") {
+		cmdFamily[n] = 'l'
+	}
+	for _, n := range strings.Fields("hset hmset hsetnx hget hmget hgetall hkeys hvals hlen hexists hstrlen hdel hincrby hincrbyfloat hrandfield hscan") {
+		cmdFamily[n] = 'h'
+	}
+	for _, n := range strings.Fields("sadd srem scard sismember smismember smembers smove srandmember sscan sinter sunion sdiff sinterstore sunionstore sdiffstore sintercard") {
+		cmdFamily[n] = 'z'
+	}
+}
+
+// MatchCmd is Match plus one tolerance: when a command is ill-formed in its arguments (it fails
+// on an empty database too) AND names a key that holds another type than the command's family,
+// both the argument error and WRONGTYPE are acceptable - Redis' own order of the two checks
+// differs from command to command and no property depends on it.
+func MatchCmd(pre *Model, sess int, args []string, want, got Reply) (bool, string) {
+	ok, why := Match(want, got)
+	if ok || !want.IsErr() || !got.IsErr() {
+		return ok, why
+	}
+	wc, gc := want.ErrClass(), got.ErrClass()
+	if !((wc == "WRONGTYPE" && gc == "ERR") || (wc == "ERR" && gc == "WRONGTYPE")) {
+		return ok, why
+	}
+	fam, typed := cmdFamily[strings.ToLower(args[0])]
+	if !typed {
+		return ok, why
+	}
+	db := pre.Sess[sess].DB
+	wrong := false
+	for _, a := range args[1:] {
+		if o := pre.DBs[db][a]; o != nil && o.T != fam && !(o.Exp != 0 && o.Exp <= pre.Now) {
+			wrong = true
+		}
+	}
+	if !wrong {
+		return ok, why
+	}
+	empty := NewModel(pre.Now)
+	for range pre.Sess {
+		empty.NewSession()
+	}
+	if r := empty.Exec(sess, args); r.IsErr() {
+		return true, ""
+	}
+	return ok, why
 }
